@@ -431,5 +431,26 @@ def replay(ctx, rep):
     case = rep['case']
     if 'q' in case:
         return selectcheck.replay_case(ctx, rep)
+    if 'text' in case and ('case' in case or (case.get('event') or {}).get('what') in ('from', 'attr')):
+        # a statement of the FROM-clause / attribute rules: compile it again on the small ledger
+        import beanquery
+        from beanquery import parser
+        from beancount import loader
+        entries, errors, options = loader.load_string(LEDGER + '2020-01-09 close Expenses:Food\n2020-01-08 commodity USD\n')
+        conn = beanquery.connect('beancount:', entries=entries, errors=errors, options=options)
+        try:
+            conn.compile(parser.parse(case['text']))
+            got = 'accepted'
+        except beanquery.CompilationError as ex:
+            got = 'CompilationError: %s' % ex
+        except Exception as ex:  # noqa
+            got = '%s: %s' % (type(ex).__name__, ex)
+        want = rep.get('expected')
+        if isinstance(want, bool):
+            want = 'accepted' if want else 'CompilationError'
+        print('statement:', case['text'])
+        print('expected :', want)
+        print('observed :', got)
+        return 0 if str(want).split(' ')[0].split(':')[0] == got.split(' ')[0].split(':')[0] else 1
     print(json.dumps(case)[:1000])
     return 1
